@@ -359,3 +359,7 @@ impl ConnectError {
         Self::RemoteAbort(reason)
     }
 }
+
+#[cfg(feature = "verif")]
+#[doc(hidden)]
+pub use self::codec::verif_incrate as verif_codec;
